@@ -313,4 +313,145 @@ theorem layout_independence (sp0 : List Spec) (cap : Nat) (hs : Simple sp0) (its
   simp only [d1, d2, e1, e2, a1, a2, c1, c2, Bool.not_true, Bool.false_eq_true, if_false]
   rw [rows_of_naive sp0 cap its A1 A2 n1 n2]
 
+/-! ## 6. the property at full strength, and where the code violates it -/
+
+/-- a node of a placement: its node-local schema of the metric (`none`: never saw it) and the
+grouped per-series results of its shards -/
+structure NodeData where
+  schema : Option (List (FName × Nat))
+  its : List TS
+
+/-- the node-local schema lists (at least) the fields the node has data for -/
+def NodeData.consistent (n : NodeData) : Prop :=
+  ∀ ts ∈ n.its, ∀ fd ∈ ts.fields, ∃ fields, n.schema = some fields ∧ (fd.name, fd.ftype) ∈ fields
+
+def outcomeOf (v : Variant) (rs : List Resp) (items : List SelItem) (ords : List OrdItem) (limit : Nat)
+    (order : List Tag) : Outcome :=
+  ((Ctx.new rs.length).handleAll v rs).outcome items ords limit order
+
+/-- **C12 at full strength** (for a variant of the code): the same written data placed on any two
+sets of nodes with their node-local schemas, delivered in any two orders, gives the same outcome.
+`sel = none` is `select *`. This is what the property text demands; it is FALSE for
+`Variant.code` (theorems `Neg.*`), `partition_invariance_partial` is what holds. -/
+def FullStatement (v : Variant) : Prop :=
+  ∀ (sel : Option (List SelItem)) (cap : Nat) (data : List TS) (p1 p2 : List NodeData),
+    (∀ n ∈ p1, n.consistent) → (∀ n ∈ p2, n.consistent) →
+    (p1.flatMap (·.its)).Perm data → (p2.flatMap (·.its)).Perm data →
+    ∀ (items : List SelItem) (ords : List OrdItem) (limit : Nat) (order : List Tag),
+      outcomeOf v (p1.map (fun n => leafAnswer v n.schema sel cap n.its)) items ords limit order =
+      outcomeOf v (p2.map (fun n => leafAnswer v n.schema sel cap n.its)) items ords limit order
+
+namespace Neg
+
+/-- one point of one series: group `tg`, field `fl` of type `ft`, the primitive series of the
+field's kinds `kds`, slot, value -/
+def pt (tg fl ft : Nat) (kds : List Nat) (sl : Nat) (vl : Int) : TS :=
+  { tags := tg, fields := [{ name := fl, ftype := ft, prims := kds.map (fun k => { kind := k, pts := [(sl, vl)] }) }] }
+
+def bare (f : Nat) : SelItem := { fn := 0, field := f }
+
+/-! (a) ARRIVAL ORDER. `select *`; field 1 (f2) was only ever written on node B. -/
+def aA : NodeData := { schema := some [(0, 1)], its := [pt 0 0 1 [1] 1 5] }
+def aB : NodeData :=
+  { schema := some [(0, 1), (1, 1)],
+    its := [{ tags := 0, fields := [{ name := 0, ftype := 1, prims := [{ kind := 1, pts := [(1, 7)] }] },
+                                     { name := 1, ftype := 1, prims := [{ kind := 1, pts := [(2, 3)] }] }] }] }
+
+/-- the root's answer has f2 iff B's response is handled first -/
+theorem arrival_order_dependence :
+    outcomeOf .code ([aA, aB].map (fun n => leafAnswer .code n.schema none 4 n.its)) [bare 0, bare 1] [] 100 [0] =
+      .rows [{ tags := 0, vals := [some [(1, 12)], none] }] ∧
+    outcomeOf .code ([aB, aA].map (fun n => leafAnswer .code n.schema none 4 n.its)) [bare 0, bare 1] [] 100 [0] =
+      .rows [{ tags := 0, vals := [some [(1, 12)], some [(2, 3)]] }] := by decide
+
+/-- with later specs merged into the aggregator (the repair) both orders agree -/
+theorem arrival_order_repaired :
+    outcomeOf .repaired ([aA, aB].map (fun n => leafAnswer .repaired n.schema none 4 n.its)) [bare 0, bare 1] [] 100 [0] =
+    outcomeOf .repaired ([aB, aA].map (fun n => leafAnswer .repaired n.schema none 4 n.its)) [bare 0, bare 1] [] 100 [0] := by
+  decide
+
+/-! (b) PLACEMENT. `select f1, f2`; node A never saw f2: its whole answer (its f1 data too) is lost. -/
+def bAB : NodeData := { schema := some [(0, 1), (1, 1)], its := aA.its ++ aB.its }
+
+theorem placement_dependence :
+    outcomeOf .code ([aA, aB].map (fun n => leafAnswer .code n.schema (some [bare 0, bare 1]) 4 n.its))
+        [bare 0, bare 1] [] 100 [0] =
+      .rows [{ tags := 0, vals := [some [(1, 7)], some [(2, 3)]] }] ∧
+    outcomeOf .code ([bAB].map (fun n => leafAnswer .code n.schema (some [bare 0, bare 1]) 4 n.its))
+        [bare 0, bare 1] [] 100 [0] =
+      .rows [{ tags := 0, vals := [some [(1, 12)], some [(2, 3)]] }] := by decide
+
+/-- the leaf that lacks one selected field answers not-found although it has data -/
+theorem leaf_missing_field_is_notfound :
+    leafAnswer .code aA.schema (some [bare 0, bare 1]) 4 aA.its = .notFound := by decide
+
+/-! (c) LAST / FIRST. a last-type field (type 4, kind 5), two series, same slot, no group by. -/
+def cA : NodeData := { schema := some [(0, 4)], its := [pt 0 0 4 [5] 1 100] }
+def cB : NodeData := { schema := some [(0, 4)], its := [pt 0 0 4 [5] 1 200] }
+
+theorem last_field_arrival_order :
+    outcomeOf .code ([cA, cB].map (fun n => leafAnswer .code n.schema (some [bare 0]) 4 n.its)) [bare 0] [] 100 [0] =
+      .rows [{ tags := 0, vals := [some [(1, 200)]] }] ∧
+    outcomeOf .code ([cB, cA].map (fun n => leafAnswer .code n.schema (some [bare 0]) 4 n.its)) [bare 0] [] 100 [0] =
+      .rows [{ tags := 0, vals := [some [(1, 100)]] }] := by decide
+
+/-! (d) TWO FUNCTIONS ON ONE FIELD. `select sum(f1), min(f1)` on a sum field: kinds [sum, min];
+every merge level adds the min series into the sum array. -/
+def dSel : List SelItem := [{ fn := 1, field := 0 }, { fn := 2, field := 0 }]
+def dA : NodeData := { schema := some [(0, 1)], its := [pt 0 0 1 [1, 3] 1 5] }
+def dB : NodeData := { schema := some [(0, 1)], its := [pt 0 0 1 [1, 3] 1 7] }
+def dAB : NodeData := { schema := some [(0, 1)], its := dA.its ++ dB.its }
+
+/-- one node vs. two nodes (the true sum is 12) -/
+theorem two_functions_shard_split :
+    outcomeOf .code ([dAB].map (fun n => leafAnswer .code n.schema (some dSel) 4 n.its)) dSel [] 100 [0] =
+      .rows [{ tags := 0, vals := [some [(1, 29)], some [(1, 5)]] }] ∧
+    outcomeOf .code ([dA, dB].map (fun n => leafAnswer .code n.schema (some dSel) 4 n.its)) dSel [] 100 [0] =
+      .rows [{ tags := 0, vals := [some [(1, 36)], some [(1, 5)]] }] := by decide
+
+/-- with and without an intermediate node (one leaf, one point 5) -/
+theorem two_functions_intermediate :
+    let leaf := leafAnswer .code dA.schema (some dSel) 4 dA.its
+    let im := ((Ctx.new 1).handleAll .code [leaf]).taskResponse
+    outcomeOf .code [leaf] dSel [] 100 [0] = .rows [{ tags := 0, vals := [some [(1, 15)], some [(1, 5)]] }] ∧
+    outcomeOf .code [im] dSel [] 100 [0] = .rows [{ tags := 0, vals := [some [(1, 20)], some [(1, 5)]] }] := by
+  decide
+
+/-- with the kind-respecting merge (the repair) the extra level changes nothing -/
+theorem two_functions_repaired :
+    let leaf := leafAnswer .repaired dA.schema (some dSel) 4 dA.its
+    let im := ((Ctx.new 1).handleAll .repaired [leaf]).taskResponse
+    outcomeOf .repaired [leaf] dSel [] 100 [0] = .rows [{ tags := 0, vals := [some [(1, 5)], some [(1, 5)]] }] ∧
+    outcomeOf .repaired [im] dSel [] 100 [0] = outcomeOf .repaired [leaf] dSel [] 100 [0] := by
+  decide
+
+/-- the full-strength statement is false of the code as it is (witness (a); (b), (c), (d) refute
+it just as well) -/
+theorem full_statement_false : ¬ FullStatement .code := by
+  intro h
+  have hc : ∀ n ∈ [aA, aB], n.consistent := by
+    intro n hn
+    simp only [List.mem_cons, List.not_mem_nil, or_false] at hn
+    rcases hn with rfl | rfl
+    · intro ts hts fd hfd
+      simp only [aA, pt, List.mem_singleton, List.map] at hts hfd ⊢
+      subst hts; simp only [List.mem_singleton] at hfd; subst hfd
+      exact ⟨_, rfl, by simp⟩
+    · intro ts hts fd hfd
+      simp only [aB, List.mem_singleton] at hts ⊢
+      subst hts
+      simp only [List.mem_cons, List.not_mem_nil, or_false] at hfd
+      rcases hfd with rfl | rfl
+      · exact ⟨_, rfl, by simp⟩
+      · exact ⟨_, rfl, by simp⟩
+  have hc' : ∀ n ∈ [aB, aA], n.consistent := fun n hn => hc n (by
+    simp only [List.mem_cons, List.not_mem_nil, or_false] at hn ⊢; tauto)
+  have := h none 4 (aA.its ++ aB.its) [aA, aB] [aB, aA] hc hc'
+    (by simp [List.flatMap_cons]) (by simp [List.flatMap_cons]; exact List.perm_append_comm)
+    [bare 0, bare 1] [] 100 [0]
+  rw [arrival_order_dependence.1, arrival_order_dependence.2] at this
+  exact absurd this (by decide)
+
+end Neg
+
 end LinVerif.Props.C12
